@@ -11,17 +11,6 @@ import (
 // C17 driver: random operation sequences (publish / history / remove-history / clock moves) on a real
 // MemoryBroker under a virtual clock. Versioned and idempotent publishes belong to C19's generator.
 
-func c17Node(meta time.Duration, forceZero bool) *Node {
-	n, err := New(Config{LogLevel: LogLevelNone, HistoryMetaTTL: meta})
-	if err != nil {
-		panic(err)
-	}
-	if forceZero {
-		n.config.HistoryMetaTTL = 0 // the hub-level "never discard metadata" branch
-	}
-	return n
-}
-
 func c17P(size int, ttl, meta int64) *c17Popts { return &c17Popts{Size: size, TTL: ttl, Meta: meta} }
 
 func c17Corpus() [][]c17Op {
